@@ -33,7 +33,9 @@ Example ex_realloc_fresh : handle_of (q_host ex_realloc) 7 2 = Some 2 /\ stale (
                            /\ position (q_host ex_realloc) 7 2 = Some 0.
 Proof. vm_compute. auto. Qed.
 
-(* a refused qalloc (node full) leaves the address mapped without a qubit: the D16 state *)
-Definition ex_full : qst := run_q 0 (init_q [(1, 5)]) [QInitApp 0 2; QAlloc 0 0; QAlloc 0 1].
-Example ex_full_mapped : position (q_host ex_full) 0 1 = Some 1 /\ handle_of (q_host ex_full) 0 1 = None.
+(* a refused qalloc (node full) is rolled back: the address is not mapped afterwards, the host bookkeeping is as before *)
+Definition ex_one : qst := run_q 0 (init_q [(1, 5)]) [QInitApp 0 2; QAlloc 0 0].
+Example ex_full_refused : snd (fst (exec 0 ex_one (QAlloc 0 1))) = RErr
+                          /\ q_host (fst (fst (exec 0 ex_one (QAlloc 0 1)))) = q_host ex_one
+                          /\ position (q_host ex_one) 0 1 = None.
 Proof. vm_compute. auto. Qed.
